@@ -417,6 +417,9 @@ func (p *MinQueriesPlanner) extractSelection(ctx *PlanningContext, config *extra
 			// add it to the list
 			finalSelection = append(finalSelection, selection)
 
+			// any variables that the directives on the spread depend on are used by this step
+			addDirectiveVariables(config.step, selection.Directives)
+
 			// grab the official definition for the fragment.
 			// we could have overwritten the definition to fit the local needs of the top level
 			// ie if there is a branch off of one that happens mid-fragment.
@@ -463,6 +466,9 @@ func (p *MinQueriesPlanner) extractSelection(ctx *PlanningContext, config *extra
 		case *ast.InlineFragment:
 			ctx.Gateway.logger.Debug("found an inline fragment. extracting to ", config.insertionPoint, ". Parent insertion", config.insertionPoint)
 
+			// any variables that the directives on the fragment depend on are used by this step
+			addDirectiveVariables(config.step, selection.Directives)
+
 			// an inline fragment without a type condition applies to the enclosing type
 			fragmentType := selection.TypeCondition
 			if fragmentType == "" {
@@ -499,6 +505,15 @@ func (p *MinQueriesPlanner) extractSelection(ctx *PlanningContext, config *extra
 	}
 	// we should have added every field that needs to be added to this list
 	return finalSelection, nil
+}
+
+// addDirectiveVariables registers the variables used by the given directives with the step
+func addDirectiveVariables(step *QueryPlanStep, directives ast.DirectiveList) {
+	for _, directive := range directives {
+		for _, variable := range graphql.ExtractVariables(directive.Arguments) {
+			step.Variables.Add(variable)
+		}
+	}
 }
 
 func (p *MinQueriesPlanner) wrapSelectionSet(ctx *PlanningContext, config *extractSelectionConfig, locationFragments map[string]ast.FragmentDefinitionList, location string, selectionSet ast.SelectionSet) (ast.SelectionSet, error) {
